@@ -142,14 +142,14 @@ def run(tier='quick', seed=0, only=None, verbose=False):
         'pyrates.ir.circuit.CircuitIR._add_edge_buffer / _collect_delays_from_edges (concrete)',
         'emitted ring-buffer code: buf[:] = roll(buf, 1[, 1]); buf[...,0] = x; read slot D (symx, one inductive step)',
         'BaseBackend._solve_euler / _solve_heun driving the emitted function (symx, K = 4/6 steps)'],
-        bounds=dict(dt='1/4', delays='round(d/dt) in 2..4 (quick) / 2..6 (thorough), incl. non-multiples of dt',
+        bounds=dict(dt='1/4', delays='round(d/dt) in 2..4 (quick) / 2..7 (thorough), incl. non-multiples of dt',
                     nodes='<=5', edges='<=5', vectorize='True and False'),
         stubs=['numpy library model'],
         assumptions=['reals for floats', 'representation invariant of the ring buffer: old slot j holds the source value '
                      'j+1 steps ago (proved to be re-established by every call)', 'delays rounding to < 2 steps are '
                      'excluded by the property', 'Connectivity ring buffers: 3 (quick) / 12 (thorough) population models per delay kind here, more in C16'])
-    progs = families.fam_discrete_delays_fixed() + families.fam_discrete_delays(seed, n=14 if tier == 'quick' else 150,
-                                                                               max_steps=4 if tier == 'quick' else 6)
+    progs = families.fam_discrete_delays_fixed() + families.fam_discrete_delays(seed, n=14 if tier == 'quick' else 400,
+                                                                               max_steps=4 if tier == 'quick' else 7)
     if only:
         progs = [p for p in progs if only in p[0]]
     jobs = [dict(key=f"{k}|vec={v}", spec=s, vectorize=v) for k, s in progs for v in (True, False)]
